@@ -152,6 +152,85 @@ func init() {
 		parts = append(parts, StrSlice(s, start, s.Len()))
 		return strSliceVal(parts)
 	})
+	// ---- internal/bytealg: the assembly kernels under strings/bytes; with these
+	// modelled, strings.Cut/Index/IndexByte/Contains/Count run from their real SSA ----
+	firstIndex := func(x *Exec, match []*Term, tag string) Value {
+		// least i with match[i], or -1: one fork per feasible position
+		conds := make([]*Term, 0, len(match)+1)
+		none := []*Term{}
+		for i := range match {
+			conds = append(conds, And(append(append([]*Term{}, none...), match[i])...))
+			none = append(none, Not(match[i]))
+		}
+		conds = append(conds, And(none...))
+		k := x.choose(conds, tag)
+		if k == len(match) {
+			return MkBV(64, ^uint64(0))
+		}
+		return MkBV(64, uint64(k))
+	}
+	byteMatches := func(bs []*Term, c *Term) []*Term {
+		m := make([]*Term, len(bs))
+		for i, b := range bs {
+			m[i] = Eq(b, c)
+		}
+		return m
+	}
+	reg("internal/bytealg.IndexByteString", func(x *Exec, g *G, a []Value) Value {
+		s := a[0].(*Str)
+		if s.Opaque {
+			x.unsupported("IndexByteString on opaque string")
+		}
+		return firstIndex(x, byteMatches(s.Bytes(), a[1].(*Term)), "indexbyte")
+	})
+	reg("internal/bytealg.IndexByte", func(x *Exec, g *G, a []Value) Value {
+		return firstIndex(x, byteMatches(termBytes(a[0]), a[1].(*Term)), "indexbyte")
+	})
+	subMatches := func(hay, needle []*Term) []*Term {
+		var m []*Term
+		for i := 0; i+len(needle) <= len(hay); i++ {
+			m = append(m, bytesEq(hay[i:i+len(needle)], needle))
+		}
+		return m
+	}
+	reg("internal/bytealg.IndexString", func(x *Exec, g *G, a []Value) Value {
+		s, sub := a[0].(*Str), a[1].(*Str)
+		if s.Opaque || sub.Opaque {
+			x.unsupported("IndexString on opaque string")
+		}
+		return firstIndex(x, subMatches(s.Bytes(), sub.Bytes()), "indexstring")
+	})
+	reg("internal/bytealg.Index", func(x *Exec, g *G, a []Value) Value {
+		return firstIndex(x, subMatches(termBytes(a[0]), termBytes(a[1])), "index")
+	})
+	countMatches := func(x *Exec, m []*Term) Value {
+		n := 0
+		for _, c := range m {
+			is := false
+			if c.IsConst() {
+				is = c.IsTrue()
+			} else {
+				is = x.choose([]*Term{c, Not(c)}, "count") == 0
+			}
+			if is {
+				n++
+			}
+		}
+		return MkBV(64, uint64(n))
+	}
+	reg("internal/bytealg.CountString", func(x *Exec, g *G, a []Value) Value {
+		s := a[0].(*Str)
+		if s.Opaque {
+			x.unsupported("CountString on opaque string")
+		}
+		return countMatches(x, byteMatches(s.Bytes(), a[1].(*Term)))
+	})
+	reg("internal/bytealg.Count", func(x *Exec, g *G, a []Value) Value {
+		return countMatches(x, byteMatches(termBytes(a[0]), a[1].(*Term)))
+	})
+	reg("internal/bytealg.Equal", func(x *Exec, g *G, a []Value) Value {
+		return bytesEq(termBytes(a[0]), termBytes(a[1]))
+	})
 	reg("strings.Join", func(x *Exec, g *G, a []Value) Value {
 		sl := a[0].(SliceV)
 		sep := a[1].(*Str)
